@@ -1,18 +1,18 @@
 import PhysisModel.Base.ParserA
 /-!
-# `Dictionary::from_existing` (`src/dic.rs`) — the node walk, for the input class of the recorded
-finding `dic.walk-unbounded`
+# `Dictionary::from_existing` (`src/dic.rs`, with the bounds checks of `fixes/C18-67`) — the node
+walk, for the input class of the recorded finding `dic.walk-unbounded`
 
 `from_existing` reads the header at 0x8124, five tables (`begin_node`, `inner_node`, `chara`, `word`:
 u16; `entries`: 4×u32) and then walks the trie with the recursive `dump_dict_node`:
 
 ```
 fn dump_dict_node(&self, vec, entry_id, prev) {
-    let node = &self.header.entries[entry_id];                     // index panic
+    let Some(node) = self.header.entries.get(entry_id) else { return };
     for i in 0..node.sibling {
         let Some(current) = self.get_string(entry_id, i) else { return };
         if node.child == 0 { vec.push(prev + current); continue; }
-        let value = self.header.inner_node[(node.child + i)];      // overflow / index panic
+        let Some(value) = node.child.checked_add(i).and_then(|x| inner_node.get(x)) else { return };
         if value == 0 { vec.push(prev + current); continue; }
         self.dump_dict_node(vec, value, prev + current);           // no depth or visited check
     }
@@ -20,13 +20,14 @@ fn dump_dict_node(&self, vec, entry_id, prev) {
 ```
 Nothing bounds the recursion depth (a node that reaches itself overflows the stack), and for a word
 entry (`flag != 0`) `get_string` ignores the sibling index, so `sibling` = 2^32-1 pushes the same
-word four billion times.  The reader panics by construction as well (recorded per panic site).
+word four billion times.  (The index / overflow panics of the pinned commit are repaired by
+`fixes/C18-67`: out-of-range node, child, character and word indices end the node.)
 
 This file is **not** a fault model of the reader (no theorem is stated about `dic`); it replays the
 walk on the parsed tables as an explicit-stack machine and decides the class
 
-  `walkUnbounded b`  :=  before the first panic of the Rust code, the walk reaches a recursion depth
-                         above `maxDepth` = 200 or makes more than `maxSteps` = 100 000 loop iterations.
+  `walkUnbounded b`  :=  the walk reaches a recursion depth above `maxDepth` = 200 or makes more
+                         than `maxSteps` = 100 000 loop iterations.
 
 Cases in the class are tagged `kf:dic.walk-unbounded` by the driver (`abort:SIGABRT` from the stack
 overflow, `timeout`, or an allocation out of proportion are expected there).
@@ -56,7 +57,7 @@ def u16At (a : ByteArray) (i : Nat) : Nat := (a.get! i).toNat + 256 * (a.get! (i
 def u32At (a : ByteArray) (i : Nat) : Nat := u16At a i + 65536 * u16At a (i + 2)
 
 /-- the table `k` (offset field at `0x8724 + 4k`, length field at `0x8738 + 4k`): `none` when the
-Rust loop panics (u32 overflow of the offset) or returns `None` (a read past the end) -/
+Rust loop returns `None` (u32 overflow of the offset, a read past the end) -/
 def table (a : ByteArray) (k elem : Nat) : Option (Nat × Nat) :=
   let off := u32At a (0x8724 + 4 * k) + 0x8750 + 0x200
   let n := u32At a (0x8738 + 4 * k) / elem
@@ -96,7 +97,6 @@ def utf16Valid : List Nat → Bool
 inductive Str
   | some    -- `Some(string)`
   | none    -- `None`: the caller returns
-  | panic   -- index / slice panic in `get_string_characters`
 
 /-- end of the zero-terminated word that starts at `begin` (scan from `begin + 1`) -/
 def wordEnd (word : Array Nat) : Nat → Nat → Nat
@@ -106,19 +106,17 @@ def wordEnd (word : Array Nat) : Nat → Nat → Nat
 def getString (t : Tables) (e : Entry) (i : Nat) : Str :=
   if e.flag == 0 then
     let pos := e.offset / 2 + i
-    if pos > t.chara.size then .none
-    else if pos == t.chara.size then .panic
+    if pos ≥ t.chara.size then .none
     else if t.chara[pos]! == 0 then .none
     else if utf16Valid [t.chara[pos]!] then .some else .none
   else
     let b := e.offset / 2
     let en := wordEnd t.word t.word.size (b + 1)
-    if en > t.word.size then .panic
+    if en > t.word.size then .none   -- `word.get(begin..end)?`
     else if utf16Valid ((t.word.extract b en).toList) then .some else .none
 
 inductive Walk
   | finished (fuel : Nat)   -- the walk returned
-  | panicked                -- the Rust code panics first
   | unbounded               -- depth or step limit exceeded
 
 /-- the recursion of `dump_dict_node` with an explicit stack of (entry id, next sibling index) -/
@@ -128,19 +126,18 @@ def walk (t : Tables) : Nat → List (Nat × Nat) → Walk
   | fuel + 1, (id, i) :: rest =>
     if rest.length ≥ maxDepth then .unbounded else
     match t.entries[id]? with
-    | none => .panicked
+    | none => walk t fuel rest
     | some e =>
       if i ≥ e.sibling then walk t fuel rest
       else
         match getString t e i with
-        | .panic => .panicked
         | .none => walk t fuel rest
         | .some =>
           if e.child == 0 then walk t fuel ((id, i + 1) :: rest)
-          else if e.child + i > U32MAX then .panicked
+          else if e.child + i > U32MAX then walk t fuel rest
           else
             match t.innerNode[e.child + i]? with
-            | none => .panicked
+            | none => walk t fuel rest
             | some v =>
               if v == 0 then walk t fuel ((id, i + 1) :: rest)
               else walk t fuel ((v, 0) :: (id, i + 1) :: rest)
@@ -153,7 +150,6 @@ def walkAll (t : Tables) : List Nat → Nat → Bool
     else
       match walk t fuel [(v, 0)] with
       | .finished f => walkAll t r f
-      | .panicked => false
       | .unbounded => true
 
 def walkUnbounded (b : Bytes) : Bool :=
